@@ -67,7 +67,7 @@ def generate(seed, tier):
     api.append({'k': w.choice([0, 1]), 'radius': w.choice([1, 5, 50]) if method == 'chic' else 0, 'pooling': 1, 'cap': None})
     api.append({'k': 0, 'radius': 0, 'pooling': w.choice([0, 1]), 'cap': w.choice([1, 2, 3])})
     # the buffer actually ejecting (default cadence is 10 000 fragments): small cadence, cache radius well above fragment + read length (<= 340)
-    api.append({'k': 0, 'radius': w.choice([0, 0, 3]) if method == 'chic' else 0, 'pooling': 1, 'cap': None, 'eject': [w.choice([0, 1, 3, 7]), 1000]})
+    api.append({'k': 0, 'radius': w.choice([0, 2, 3]) if method == 'chic' else 0, 'pooling': 1, 'cap': None, 'eject': [w.choice([0, 1, 3, 7]), 1000]})
     api.append({'k': 0, 'radius': 0, 'pooling': w.choice([0, 1]), 'cap': None, 'eject': [w.choice([0, 2, 5]), 1000]})
     s = st.schedule
     nlife = weighted(s, [(1, 2), (2, 4), (3, 3)])
@@ -225,9 +225,31 @@ def _api_layer(case, log, V, probe):
             if not _connected(sorted({f['umi'] for f in fr}), lambda a, b: _hd(a, b) <= k):
                 V('unsound-molecule', 'api/umis-not-linked', fragments=[f['n'] for f in fr][:6], umis=sorted({f['umi'] for f in fr}), **ctx)
         # exactness
-        if k == 0 and radius == 0 and method != 'qflag':
+        exact_ok = (k == 0 and radius == 0 and method != 'qflag')
+        truth_r = None
+        if k == 0 and radius > 0 and method == 'chic':
+            # with an assignment radius the truth classes are the groups of equal (cell, contig, strand, UMI) whose sites are all within the radius
+            # of each other; the partition is pinned down when every connected group is such a clique (no order-dependent chains)
+            valid0 = [f for f in frags if not lib.invalid_for(f, method)]
+            comps = {}
+            pinned = True
+            for f in sorted(valid0, key=lambda f: f['site']):
+                key0 = (f['cell'], f['ctg'], bool(f['rev']), f['umi'])
+                lst = comps.setdefault(key0, [])
+                if lst and f['site'] - lst[-1]['sites'][-1] <= radius:
+                    lst[-1]['ids'].add(f['n'])
+                    lst[-1]['sites'].append(f['site'])
+                    if f['site'] - lst[-1]['sites'][0] > radius:
+                        pinned = False
+                else:
+                    lst.append({'ids': {f['n']}, 'sites': [f['site']]})
+            if pinned:
+                exact_ok = True
+                truth_r = {(k0, i): c['ids'] for k0, lst in comps.items() for i, c in enumerate(lst)}
+                probe('radius_partition_pinned')
+        if exact_ok:
             valid = [f for f in frags if not lib.invalid_for(f, method)]
-            truth = lib.truth_classes(valid)
+            truth = truth_r if truth_r is not None else lib.truth_classes(valid)
             got_valid = [sorted(x['id'] for x in g) for g in mols if not any(x['overflow'] for x in g) and all(x['id'] in {f['n'] for f in valid} for x in g)]
             overflow = [g for g in mols if any(x['overflow'] for x in g)]
             if overflow:
